@@ -16,13 +16,13 @@ EXH = {  # exhaustive writer bounds per tier (Prefix "dtd": the behaviours that 
     "quick": [
         dict(MaxTokens=4, MaxDepth=2, MaxBad=1, MaxTop=2, MaxDtd=2, MaxTrunc=2, Wide="FALSE", Prefix='"none"',
              NStylesGood=4, NStylesBad=2, NLexStyles=6),
-        dict(MaxTokens=13, MaxDepth=2, MaxBad=1, MaxTop=2, MaxDtd=0, MaxTrunc=0, Wide="FALSE", Prefix='"dtd"',
+        dict(MaxTokens=14, MaxDepth=2, MaxBad=1, MaxTop=2, MaxDtd=0, MaxTrunc=0, Wide="FALSE", Prefix='"dtd"',
              NStylesGood=2, NStylesBad=1, NLexStyles=2),
     ],
     "thorough": [
         dict(MaxTokens=5, MaxDepth=3, MaxBad=1, MaxTop=2, MaxDtd=2, MaxTrunc=2, Wide="FALSE", Prefix='"none"',
              NStylesGood=6, NStylesBad=2, NLexStyles=6),
-        dict(MaxTokens=14, MaxDepth=2, MaxBad=1, MaxTop=2, MaxDtd=0, MaxTrunc=0, Wide="FALSE", Prefix='"dtd"',
+        dict(MaxTokens=15, MaxDepth=2, MaxBad=1, MaxTop=2, MaxDtd=0, MaxTrunc=0, Wide="FALSE", Prefix='"dtd"',
              NStylesGood=3, NStylesBad=1, NLexStyles=3),
     ],
 }
@@ -209,7 +209,8 @@ def text_cases(wd, tier, base_replay, out=None):
 # every way of being ill-formed that the statement of C02 lists must really have been exercised
 C02_LABELS = ["ETagMismatch", "Unclosed", "DupAttr", "BadChar", "BadName", "BadCharRef", "LtInAttr", "BareAmp",
               "LtInText", "DashDashInComment", "CDEndInText", "UndeclaredEntity", "NoRoot", "SecondRoot",
-              "TextAtTopLevel", "LateXmlDecl", "ReservedPITarget", "UnparsedEntityRef", "EntityCycleOrUndeclared"]
+              "TextAtTopLevel", "LateXmlDecl", "ReservedPITarget", "UnparsedEntityRef", "EntityCycleOrUndeclared",
+              "BadXmlDecl", "BadPubidChar", "ExternalEntityInAttr", "UnquotedAttr", "MissingSpaceBetweenAttrs"]
 C01_KINDS = ["xmldecl", "comment", "pi", "ws", "doctype", "entity", "uentity", "notation", "attlist", "elemdecl",
              "dtdend", "stag", "etag", "text", "cdata"]
 
